@@ -33,6 +33,7 @@ PROPS = {
             "design_ref": "DESIGN.md §5 C01, §3.6",
         },
         "lean_props": ["C01", "EngineThms"],
+        "facts": ["CheckFacts"],
         "streams": [SOL, HIST],
     },
     "C02": {
@@ -48,6 +49,7 @@ PROPS = {
             "design_ref": "DESIGN.md §5 C02",
         },
         "lean_props": ["C02", "EngineThms"],
+        "facts": ["CheckFacts"],
         "streams": [SOL, HIST],
     },
     "C03": {
@@ -113,7 +115,7 @@ PROPS = {
         },
         "lean_props": ["C06"],
         "facts": ["SolverFacts"],
-        "streams": [SOL],
+        "streams": [SOL, {"name": "ssolve", "corpus": True}],
     },
     "C07": {
         "claim": {
@@ -163,6 +165,7 @@ PROPS = {
             "design_ref": "DESIGN.md §5 C09",
         },
         "lean_props": ["C09", "C01"],
+        "facts": ["CheckFacts"],
         "streams": [HIST, {"name": "histw", "corpus": True}],
     },
     "C10": {
